@@ -28,6 +28,21 @@ def check_idx_kernel(run, m):
     ev = S.Evaluator(_ClosureFn(fn, cl))
     W = S.World()
     ps = cl['params']
+    from facts import walk, peel
+    # reads of the series other than by index (`self.titer()`, `self.slice(..)`, ..): their extent is
+    # not tied to the output position at all
+    nonidx = [x for x in walk(cl['ch'][0]) if x.get('k') == 'MethodCall' and
+              peel(x['ch'][0]).get('k') == 'Path' and peel(x['ch'][0]).get('name') in ('self', 'other') and
+              x['method'] not in ('uget', 'len', 'get', 'vget', 'uvget')]
+    for x in nonidx:
+        run.ob('IDX.kernel', fn, 'non-indexed read %s' % S._clean(src(x))[:60], False, loc(x),
+               'a window-index kernel reads the series through `%s`, which is not bounded by the end index'
+               % x['method'])
+    if not _pat_binds(ps[0]) or not _pat_binds(ps[1]):
+        run.ob('IDX.kernel', fn, 'start / end index parameters are used', False, loc(cl),
+               'the kernel ignores its %s parameter: its reads cannot be bounded by the output position'
+               % ('end index' if not _pat_binds(ps[1]) else 'start index'))
+        return len(nonidx) + 1
     b_start = _pat_binds(ps[0])[0]
     b_end = _pat_binds(ps[1])[0]
     end = 'end#%d' % b_end['local']
